@@ -117,8 +117,8 @@ func (e *Engine) verifyFunction(f *ssa.Function, spec *FuncSpec) *collector {
 		return coll
 	}
 	for _, bad := range e.bindLoopSpecs(f, spec) {
-		coll.obls = append(coll.obls, &Obligation{Func: e.fnKey(f), Kind: "anchor", Name: "anchor:" + bad, Props: specProps(spec),
-			Goal: "false", Expect: "unsat", Cmds: nil, Where: spec.Where, Detail: "contract anchor does not resolve to a loop of the current source"})
+		coll.obls = append(coll.obls, &Obligation{Func: e.fnKey(f), Kind: "anchor", Name: "anchor:" + bad.name, Props: bad.props,
+			Goal: "false", Expect: "unsat", Cmds: nil, Where: bad.where, Detail: "contract anchor does not resolve to a loop of the current source"})
 	}
 	if spec != nil {
 		for _, fl := range spec.Flows {
@@ -192,6 +192,7 @@ func (e *Engine) verifyFunction(f *ssa.Function, spec *FuncSpec) *collector {
 			err := safeSpec(func() { s.assume(env.evalBool(c.Expr)) })
 			if err != nil {
 				coll.specErr(e, f, c, err)
+				coll.obls[len(coll.obls)-1].Props = s.structProps()
 			}
 		}
 		s.fnFrame = s.buildFrame(spec.Modifies, spec.HasMod, env, "function "+spec.Name)
@@ -200,7 +201,7 @@ func (e *Engine) verifyFunction(f *ssa.Function, spec *FuncSpec) *collector {
 	}
 	// vacuity guard: the precondition must be satisfiable
 	if spec != nil && len(spec.Requires) > 0 {
-		coll.obls = append(coll.obls, &Obligation{Func: e.fnKey(f), Kind: "vacuity", Name: "pre-satisfiable", Props: specProps(spec),
+		coll.obls = append(coll.obls, &Obligation{Func: e.fnKey(f), Kind: "vacuity", Name: "pre-satisfiable", Props: unionProps(specProps(spec), allProps(spec)),
 			Cmds: append([]string(nil), s.cmds...), Goal: "false", Expect: "sat", Where: spec.Where})
 	}
 	if spec != nil {
@@ -260,10 +261,10 @@ func (s *State) explore(b *ssa.BasicBlock) {
 			case unsupported:
 				msg := fmt.Sprintf("%s: unsupported: %s", s.eng.fnKey(s.fn), x.msg)
 				s.coll.unsupported = append(s.coll.unsupported, msg)
-				s.coll.obls = append(s.coll.obls, &Obligation{Func: s.eng.fnKey(s.fn), Kind: "unsupported", Name: "unsupported", Props: s.defaultProps(),
+				s.coll.obls = append(s.coll.obls, &Obligation{Func: s.eng.fnKey(s.fn), Kind: "unsupported", Name: "unsupported", Props: s.structProps(),
 					Goal: "false", Expect: "unsat", Detail: x.msg, Path: strings.Join(s.trace, ">")})
 			case specErr:
-				s.coll.obls = append(s.coll.obls, &Obligation{Func: s.eng.fnKey(s.fn), Kind: "spec-error", Name: "spec-error", Props: s.defaultProps(),
+				s.coll.obls = append(s.coll.obls, &Obligation{Func: s.eng.fnKey(s.fn), Kind: "spec-error", Name: "spec-error", Props: s.structProps(),
 					Goal: "false", Expect: "unsat", Detail: x.msg, Path: strings.Join(s.trace, ">")})
 			default:
 				panic(r)
@@ -277,8 +278,31 @@ func (s *State) runBlock(b *ssa.BasicBlock) {
 	if s.coll.paths > s.eng.maxPaths {
 		s.unsupported("path explosion (> %d paths)", s.eng.maxPaths)
 	}
-	s.trace = append(s.trace, fmt.Sprint(b.Index))
-	for _, in := range b.Instrs {
+	if len(s.inl) > 0 {
+		s.trace = append(s.trace, fmt.Sprintf("%s:%d", s.code.Name(), b.Index))
+	} else {
+		s.trace = append(s.trace, fmt.Sprint(b.Index))
+	}
+	s.runBlockFrom(b, 0)
+}
+
+// curFn: the function whose code is executing (an inlined helper, or the verified function itself).
+func (s *State) curFn() *ssa.Function {
+	if s.code != nil {
+		return s.code
+	}
+	return s.fn
+}
+
+func (s *State) runBlockFrom(b *ssa.BasicBlock, from int) {
+	for idx := from; idx < len(b.Instrs); idx++ {
+		in := b.Instrs[idx]
+		if call, ok := in.(*ssa.Call); ok {
+			if callee, binds := s.inlineTarget(call.Common()); callee != nil {
+				s.inlineCall(call, callee, binds, b, idx)
+				return
+			}
+		}
 		switch in := in.(type) {
 		case *ssa.If:
 			c := s.valueOf(in.Cond).Terms[0]
@@ -293,6 +317,10 @@ func (s *State) runBlock(b *ssa.BasicBlock) {
 			s.jump(b, b.Succs[0])
 			return
 		case *ssa.Return:
+			if len(s.inl) > 0 {
+				s.inlineReturn(in)
+				return
+			}
 			s.doReturn(in)
 			s.coll.paths++
 			return
@@ -308,9 +336,13 @@ func (s *State) runBlock(b *ssa.BasicBlock) {
 
 func (s *State) jump(from, to *ssa.BasicBlock) {
 	s.prev = from
-	loops := s.eng.loopsOf(s.fn)
+	loops := s.eng.loopsOf(s.curFn())
+	base := 0
+	if len(s.inl) > 0 {
+		base = s.inl[len(s.inl)-1].loopBase // loops of the callers are not affected by jumps inside an inlined helper
+	}
 	// back edge to an active loop?
-	for i := len(s.loops) - 1; i >= 0; i-- {
+	for i := len(s.loops) - 1; i >= base; i-- {
 		lf := s.loops[i]
 		if lf.L.Header == to {
 			// inner loops are left by this jump
@@ -325,7 +357,7 @@ func (s *State) jump(from, to *ssa.BasicBlock) {
 		}
 	}
 	// leave loops that do not contain the target
-	for len(s.loops) > 0 && !s.loops[len(s.loops)-1].L.Region[to] {
+	for len(s.loops) > base && !s.loops[len(s.loops)-1].L.Region[to] {
 		s.evalSteps(s.loops[len(s.loops)-1], true, nil)
 		s.loops = s.loops[:len(s.loops)-1]
 	}
@@ -424,7 +456,7 @@ func (s *State) enterLoop(l *Loop) {
 	}
 	if mods.all {
 		if !lf.Frame.Unrestricted {
-			s.oblige("frame", "loop-havoc-all@"+l.Name, s.defaultProps(), "false", where, "loop calls code without a frame but declares modifies")
+			s.oblige("frame", "loop-havoc-all@"+l.Name, s.structProps(), "false", where, "loop calls code without a frame but declares modifies")
 		}
 		s.havocAll()
 	} else {
@@ -456,7 +488,7 @@ func (s *State) enterLoop(l *Loop) {
 	}
 	// vacuity guard for the loop head
 	{
-		s.coll.obls = append(s.coll.obls, &Obligation{Func: s.eng.fnKey(s.fn), Kind: "vacuity", Name: "loop-head-reachable:" + l.Name, Props: s.defaultProps(),
+		s.coll.obls = append(s.coll.obls, &Obligation{Func: s.eng.fnKey(s.fn), Kind: "vacuity", Name: "loop-head-reachable:" + l.Name, Props: s.structProps(),
 			Cmds: append([]string(nil), s.cmds...), Goal: "false", Expect: "sat", Where: where, Path: strings.Join(s.trace, ">")})
 	}
 }
@@ -525,76 +557,82 @@ func (e *Engine) loopMods(s *State, l *Loop) *modSet {
 			m.heaps[base] = heapLeaves(base, t)
 		}
 	}
-	for _, b := range s.fn.Blocks {
+	for _, b := range l.Header.Parent().Blocks {
 		if !l.Body[b] {
 			continue
 		}
 		for _, in := range b.Instrs {
-			switch in := in.(type) {
-			case *ssa.Alloc:
-				m.allocs = true
-				m.allocTags[typeKey(derefType(in.Type()))] = true
-				if e.isLocalCell(in) && !seenCell[in] {
-					seenCell[in] = true
-					m.cells = append(m.cells, in)
-				}
-			case *ssa.Store:
-				e.addrMods(in.Addr, m, seenCell, addBase)
-			case *ssa.MapUpdate:
-				mt := in.Map.Type().Underlying().(*types.Map)
-				for _, hb := range mapHeapBases(mt) {
-					m.heaps[hb.base] = hb.leaves
-				}
-			case *ssa.Next:
-				if r, ok := in.Iter.(*ssa.Range); ok {
-					m.iters = append(m.iters, r)
-				}
-			case *ssa.Send:
-				if n := chanName(in.Chan); n != "" {
-					m.ghost["$sends_"+n] = true
-					m.ghost["$sent_"+n] = true
-				}
-			case *ssa.Select:
-				for _, st := range in.States {
-					if n := chanName(st.Chan); n != "" {
-						m.ghost["$recvs_"+n] = true
-						m.ghost["$received_"+n] = true
-					}
-				}
-			case *ssa.UnOp:
-				if in.Op == token.ARROW {
-					if n := chanName(in.X); n != "" {
-						m.ghost["$recvs_"+n] = true
-						m.ghost["$received_"+n] = true
-					}
-				}
-			case *ssa.Go:
-				m.allocs = true
-				calName := ""
-				if cal := in.Common().StaticCallee(); cal != nil {
-					calName = cal.Name()
-				} else if mc, ok := in.Common().Value.(*ssa.MakeClosure); ok {
-					calName = mc.Fn.Name()
-				}
-				if calName != "" {
-					m.ghost["$spawns_"+calName] = true
-					for i := range in.Common().Args {
-						m.ghost[fmt.Sprintf("$spawnarg_%s_%d", calName, i)] = true
-					}
-				}
-			case *ssa.MakeMap, *ssa.MakeSlice, *ssa.MakeChan, *ssa.MakeClosure, *ssa.MakeInterface:
-				m.allocs = true
-				if v, ok := in.(ssa.Value); ok {
-					if tg := refTag(v.Type()); tg != "" {
-						m.allocTags[tg] = true
-					}
-				}
-			case ssa.CallInstruction:
-				e.callMods(s, in.Common(), m, addBase)
-			}
+			e.instrMods(s, in, m, seenCell, addBase, 0)
 		}
 	}
 	return m
+}
+
+
+// instrMods adds what one instruction may modify (used for loop bodies and for the bodies of inlined helpers).
+func (e *Engine) instrMods(s *State, in ssa.Instruction, m *modSet, seenCell map[*ssa.Alloc]bool, addBase func(string, types.Type), depth int) {
+	switch in := in.(type) {
+	case *ssa.Alloc:
+		m.allocs = true
+		m.allocTags[typeKey(derefType(in.Type()))] = true
+		if e.isLocalCell(in) && !seenCell[in] {
+			seenCell[in] = true
+			m.cells = append(m.cells, in)
+		}
+	case *ssa.Store:
+		e.addrMods(in.Addr, m, seenCell, addBase)
+	case *ssa.MapUpdate:
+		mt := in.Map.Type().Underlying().(*types.Map)
+		for _, hb := range mapHeapBases(mt) {
+			m.heaps[hb.base] = hb.leaves
+		}
+	case *ssa.Next:
+		if r, ok := in.Iter.(*ssa.Range); ok {
+			m.iters = append(m.iters, r)
+		}
+	case *ssa.Send:
+		if n := chanName(in.Chan); n != "" {
+			m.ghost["$sends_"+n] = true
+			m.ghost["$sent_"+n] = true
+		}
+	case *ssa.Select:
+		for _, st := range in.States {
+			if n := chanName(st.Chan); n != "" {
+				m.ghost["$recvs_"+n] = true
+				m.ghost["$received_"+n] = true
+			}
+		}
+	case *ssa.UnOp:
+		if in.Op == token.ARROW {
+			if n := chanName(in.X); n != "" {
+				m.ghost["$recvs_"+n] = true
+				m.ghost["$received_"+n] = true
+			}
+		}
+	case *ssa.Go:
+		m.allocs = true
+		calName := ""
+		if cal := in.Common().StaticCallee(); cal != nil {
+			calName = cal.Name()
+		} else if mc, ok := in.Common().Value.(*ssa.MakeClosure); ok {
+			calName = mc.Fn.Name()
+		}
+		if calName != "" {
+			m.ghost["$spawns_"+calName] = true
+			for i := range in.Common().Args {
+				m.ghost[fmt.Sprintf("$spawnarg_%s_%d", calName, i)] = true
+			}
+		}
+	case *ssa.MakeMap, *ssa.MakeSlice, *ssa.MakeChan, *ssa.MakeClosure, *ssa.MakeInterface:
+		m.allocs = true
+		if v, ok := in.(ssa.Value); ok {
+			if tg := refTag(v.Type()); tg != "" {
+				m.allocTags[tg] = true
+			}
+		}
+	case ssa.CallInstruction:
+		e.callMods(s, in.Common(), m, addBase, seenCell, depth)
+	}
 }
 
 func (e *Engine) addrMods(addr ssa.Value, m *modSet, seenCell map[*ssa.Alloc]bool, addBase func(string, types.Type)) {
@@ -670,7 +708,7 @@ func (e *Engine) addrMods(addr ssa.Value, m *modSet, seenCell map[*ssa.Alloc]boo
 	addBase(cellHeapBase(pt), pt)
 }
 
-func (e *Engine) callMods(s *State, c *ssa.CallCommon, m *modSet, addBase func(string, types.Type)) {
+func (e *Engine) callMods(s *State, c *ssa.CallCommon, m *modSet, addBase func(string, types.Type), seenCell map[*ssa.Alloc]bool, depth int) {
 	if b, ok := c.Value.(*ssa.Builtin); ok {
 		switch b.Name() {
 		case "delete":
@@ -689,6 +727,15 @@ func (e *Engine) callMods(s *State, c *ssa.CallCommon, m *modSet, addBase func(s
 			if libInvokePure(c) {
 				return
 			}
+		}
+		// a local closure called through the variable it was bound to
+		if fn := localClosureOf(c.Value); fn != nil && e.inlinable(fn) && depth < maxInlineDepth {
+			for _, b := range fn.Blocks {
+				for _, in := range b.Instrs {
+					e.instrMods(s, in, m, seenCell, addBase, depth+1)
+				}
+			}
+			return
 		}
 		// dynamic call
 		if ft := e.funcTypeSpec(c.Value.Type()); ft != nil {
@@ -725,6 +772,15 @@ func (e *Engine) callMods(s *State, c *ssa.CallCommon, m *modSet, addBase func(s
 					}
 					e.addrMods(u.X, m, seen, addBase)
 				}
+			}
+		}
+		return
+	}
+	if e.inlinable(callee) && depth < maxInlineDepth {
+		// contract-less helper: it will be executed in place, so its body's effects are the call's effects
+		for _, b := range callee.Blocks {
+			for _, in := range b.Instrs {
+				e.instrMods(s, in, m, seenCell, addBase, depth+1)
 			}
 		}
 		return
@@ -1972,7 +2028,7 @@ func (s *State) doPanic(where string) {
 
 func (s *State) doReturn(in *ssa.Return) {
 	// vacuity guard: some return must be reachable under the accumulated assumptions
-	s.coll.obls = append(s.coll.obls, &Obligation{Func: s.eng.fnKey(s.fn), Kind: "vacuity", Name: "return-reachable", Props: s.defaultProps(),
+	s.coll.obls = append(s.coll.obls, &Obligation{Func: s.eng.fnKey(s.fn), Kind: "vacuity", Name: "return-reachable", Props: s.structProps(),
 		Cmds: append([]string(nil), s.cmds...), Goal: "false", Expect: "sat", Where: s.eng.pos(s.fn.Pos()), Path: strings.Join(s.trace, ">")})
 	if s.spec == nil {
 		return
@@ -2023,7 +2079,7 @@ func (s *State) doReturn(in *ssa.Return) {
 			for i, l := range shapeOf(v.T) {
 				cs = append(cs, eq(v.Terms[i], s.ghostConst(g, l)))
 			}
-			s.oblige("frame", "ghost:"+g, s.defaultProps(), and(cs...), s.eng.pos(in.Pos()), "modifies "+s.fnFrame.Desc)
+			s.oblige("frame", "ghost:"+g, s.structProps(), and(cs...), s.eng.pos(in.Pos()), "modifies "+s.fnFrame.Desc)
 		}
 	}
 	env.fn = nil // post-conditions talk about parameters (entry values), results and the heap
@@ -2040,4 +2096,161 @@ func (s *State) doReturn(in *ssa.Return) {
 			s.coll.specErr(s.eng, s.fn, c, err)
 		}
 	}
+}
+
+// ---- inlining of contract-less helper functions --------------------------------------------------
+//
+// A function of the repository that has no contract is not a reason to give up on its callers: its body is
+// executed in place (bounded depth, no recursion), so an extracted helper is verified as part of every
+// function that uses it. Loops inside it have no invariants (everything they modify is havocked).
+
+const maxInlineDepth = 3
+
+func (s *State) inlineTarget(c *ssa.CallCommon) (*ssa.Function, []Val) {
+	if c.IsInvoke() {
+		return nil, nil
+	}
+	if _, isBuiltin := c.Value.(*ssa.Builtin); isBuiltin {
+		return nil, nil
+	}
+	callee := c.StaticCallee()
+	var binds []Val
+	if callee == nil {
+		if r, ok := s.regs[c.Value]; ok && r.Fn != nil {
+			callee = r.Fn
+			binds = r.Binds
+		}
+	} else if mc, ok := c.Value.(*ssa.MakeClosure); ok {
+		if r, ok := s.regs[mc]; ok {
+			binds = r.Binds
+		}
+	}
+	if callee == nil || !s.eng.inlinable(callee) {
+		return nil, nil
+	}
+	if len(s.inl) >= maxInlineDepth || callee == s.fn {
+		return nil, nil
+	}
+	for _, fr := range s.inl {
+		if fr.call.Common().StaticCallee() == callee {
+			return nil, nil
+		}
+	}
+	if callee == s.curFn() {
+		return nil, nil
+	}
+	return callee, binds
+}
+
+// inlinable: a repository function with a body, without contract and without library specification.
+func (e *Engine) inlinable(f *ssa.Function) bool {
+	if f == nil || f.Blocks == nil || f.Pkg == nil || e.ssaPkgs[f.Pkg.Pkg.Name()] != f.Pkg {
+		if f == nil || f.Blocks == nil || f.Parent() == nil {
+			return false
+		}
+		// anonymous function of a repository function
+		p := f.Parent()
+		for p.Parent() != nil {
+			p = p.Parent()
+		}
+		if p.Pkg == nil || e.ssaPkgs[p.Pkg.Pkg.Name()] != p.Pkg {
+			return false
+		}
+	}
+	if _, ok := e.specs[e.fnKey(f)]; ok {
+		return false
+	}
+	if libSpecFor(f) != nil {
+		return false
+	}
+	if f.Recover != nil {
+		return false
+	}
+	return true
+}
+
+func (s *State) inlineCall(call *ssa.Call, callee *ssa.Function, binds []Val, b *ssa.BasicBlock, idx int) {
+	args := s.evalArgs(call.Common())
+	s.checkAtCalls(callee, args, s.eng.pos(call.Pos()))
+	s.coll.notes = append(s.coll.notes, fmt.Sprintf("%s: %s has no contract; its body is verified in place (inlined)", s.eng.fnKey(s.fn), s.eng.fnKey(callee)))
+	for i, p := range callee.Params {
+		if i < len(args) {
+			s.regs[p] = args[i]
+		}
+	}
+	for i, fv := range callee.FreeVars {
+		if i < len(binds) {
+			s.regs[fv] = binds[i]
+		} else {
+			s.unsupported("inlined closure %s with unknown bindings", callee.Name())
+		}
+	}
+	s.inl = append(append([]inlineFrame(nil), s.inl...), inlineFrame{code: s.curFn(), block: b, idx: idx, call: call, loopBase: len(s.loops), defers: s.defers, deferArgs: s.deferArgs})
+	s.defers, s.deferArgs = nil, nil
+	s.code = callee
+	s.runBlock(callee.Blocks[0])
+}
+
+func (s *State) inlineReturn(in *ssa.Return) {
+	fr := s.inl[len(s.inl)-1]
+	var parts []Val
+	for _, r := range in.Results {
+		v := s.valueOf(r)
+		parts = append(parts, v)
+	}
+	var res Val
+	switch len(parts) {
+	case 0:
+	case 1:
+		res = parts[0]
+	default:
+		res = Val{T: s.code.Signature.Results(), Elems: parts}
+		for _, p := range parts {
+			if p.Loc != nil {
+				s.unsupported("inlined helper returns an interior pointer")
+			}
+			res.Terms = append(res.Terms, p.Terms...)
+		}
+	}
+	// loops of the helper that are still open end here
+	s.loops = s.loops[:fr.loopBase]
+	s.inl = s.inl[:len(s.inl)-1]
+	s.defers, s.deferArgs = fr.defers, fr.deferArgs
+	s.code = fr.code
+	s.regs[fr.call] = res
+	s.trace = append(s.trace, "ret")
+	s.runBlockFrom(fr.block, fr.idx+1)
+}
+
+// localClosureOf: v is a load of a local cell that is assigned exactly one closure (the `helper := func...` idiom).
+func localClosureOf(v ssa.Value) *ssa.Function {
+	u, ok := v.(*ssa.UnOp)
+	if !ok || u.Op != token.MUL {
+		if mc, ok := v.(*ssa.MakeClosure); ok {
+			f, _ := mc.Fn.(*ssa.Function)
+			return f
+		}
+		return nil
+	}
+	a, ok := u.X.(*ssa.Alloc)
+	if !ok || a.Referrers() == nil {
+		return nil
+	}
+	var fn *ssa.Function
+	n := 0
+	for _, r := range *a.Referrers() {
+		if st, ok := r.(*ssa.Store); ok && st.Addr == a {
+			n++
+			switch x := st.Val.(type) {
+			case *ssa.MakeClosure:
+				fn, _ = x.Fn.(*ssa.Function)
+			case *ssa.Function:
+				fn = x
+			}
+		}
+	}
+	if n != 1 {
+		return nil
+	}
+	return fn
 }
